@@ -77,7 +77,17 @@ NamedChains == {P("nchain", Pre \o <<SLet("Bundle", "d", Bin(op, BB, Num(2))), S
          P("nchain", Pre \o <<SLet("Bundle", "r", Bin("*", Bin("*", BB, Num(2)), Num(3)))>>),
          P("nchain", Pre \o <<SLet("Bundle", "d", Bin("+", BB, Num(2))), SLet("Bundle", "r", Bin("+", Ref("d"), Num(3))), SLet("Signal", "e", Bin(">", AnyE(Ref("d")), Num(8)))>>)}
 \* (gating a bundle by a scalar condition is not a documented bundle operation and not part of C02: Gates is not generated)
-All == EachOps \cup Filters \cup Quants \cup Sels \cup Lits \cup Chains \cup SelPairs \cup NamedChains
+\* NEAR-DUPLICATES over one bundle: two statements that differ in exactly one attribute (copy vs constant output, the constant,
+\* comparator, threshold, operator, operand), both orders, observed directly and through a consumer
+NearB == <<CondE(Bin(">", BB, Num(0)), BB), CondE(Bin(">", BB, Num(0)), Num(1)), CondE(Bin(">", BB, Num(0)), Num(7)), CondE(Bin(">=", BB, Num(0)), BB),
+           CondE(Bin(">", BB, Num(3)), BB), CondE(Bin(">", BB, Num(3)), Num(1)), Bin("*", BB, Num(2)), Bin("*", BB, Num(3)), Bin("+", BB, Num(2)), Bin("*", BB, S)>>
+NearQ == <<Bin(">", AnyE(BB), Num(0)), Bin(">", AllE(BB), Num(0)), Bin(">=", AnyE(BB), Num(0)), Bin(">", AnyE(BB), Num(6)), Bin(">", AllE(BB), Num(6)),
+           CondE(Bin(">", AnyE(BB), Num(0)), S), CondE(Bin(">", AllE(BB), Num(0)), S), CondE(Bin(">", AnyE(BB), Num(0)), Num(1))>>
+NearPairs(fs) == {<<fs[i], fs[j]>> : i \in DOMAIN fs, j \in DOMAIN fs} \ {<<fs[i], fs[i]>> : i \in DOMAIN fs}
+NearBP == {P("nearb", Pre \o <<SLet("Bundle", "x", pr[1]), SLet("Bundle", "y", pr[2])>>) : pr \in NearPairs(NearB)}
+     \cup {P("nearb", Pre \o <<SLet("Bundle", "x", pr[1]), SLet("Bundle", "y", pr[2]), SLet("Bundle", "w", Bin("*", Ref("y"), Num(100)))>>) : pr \in NearPairs(SubSeq(NearB, 1, 6))}
+     \cup {P("nearb", Pre \o <<SLet("Signal", "x", pr[1]), SLet("Signal", "y", pr[2])>>) : pr \in NearPairs(NearQ)}
+All == EachOps \cup Filters \cup Quants \cup Sels \cup Lits \cup Chains \cup SelPairs \cup NamedChains \cup NearBP
 ASSUME PrintT(<<"NPROGS", Cardinality(All)>>)
 ASSUME JsonSerialize(IOEnv.GEN_OUT, SetToSeq(All))
 =============================================================================
